@@ -19,6 +19,10 @@
 #include <random.h>
 #include <logging.h>
 #include <util/strencodings.h>
+#include <util/threadnames.h>
+#include <util/time.h>
+#include <support/cleanse.h>
+#include <chrono>
 
 // ---- hash model (recording, deterministic): digest(x)[i] = x[i] ^ K[i] ^ g(len, i), x zero-padded to 32 bytes. Same bytes -> same digest whatever the
 // fragmentation of Write(); injective on inputs of equal length <= 32. The transport's checksum is the first 4 bytes of digest(digest(payload)).
@@ -44,6 +48,16 @@ static void model_checksum(const unsigned char* payload, size_t len, unsigned ch
 alignas(16) static unsigned char g_params_storage[sizeof(CChainParams)];
 const CChainParams& Params() { return *reinterpret_cast<const CChainParams*>(g_params_storage); }
 void RandAddEvent(const uint32_t) noexcept {}
+// logging is off (message text is not a subject); the formatting helpers only feed log lines
+bool util::log::ShouldDebugLog(uint64_t) { return false; }
+void util::log::Log(util::log::Entry) {}
+std::string SanitizeString(std::string_view, int) { return std::string(); }
+std::string HexStr(const std::span<const uint8_t>) { return std::string(); }
+std::string util::ThreadGetInternalName() { return std::string(); }
+std::chrono::seconds GetMockTime() { return std::chrono::seconds{0}; }
+std::chrono::system_clock::time_point std::chrono::system_clock::now() noexcept { return {}; }
+void memory_cleanse(void*, size_t) {}
+namespace std { void __throw_system_error(int) { __CPROVER_assert(0, "mutex error"); __CPROVER_assume(0); __builtin_trap(); } }
 NodeClock::time_point NodeClock::now() noexcept { return NodeClock::time_point{}; }
 extern "C" {
 int pthread_mutex_lock(pthread_mutex_t*) noexcept { return 0; }
@@ -75,9 +89,13 @@ static void feed(V1Transport& r, const uint8_t* p, size_t n, RecvResult& res)
 // TLEN: message type length; PLEN: payload length; CUT_LO..CUT_HI: the stream is delivered as [0,cut) + [cut,end) for every cut in the range
 // (cut == 0: one fragment); TAMPER: -1 none, else index of the wire byte that is altered; NEWLEN: for TAMPER in the length field the (concrete) length
 // the altered field decodes to, -1 otherwise
-template <int TLEN, int PLEN, int CUT_LO, int CUT_HI, int TAMPER, long NEWLEN>
+// message types (concrete per entry: a symbolic character makes strnlen/std::string lengths symbolic on the receiver; magic, payload and checksum stay symbolic)
+static constexpr const char* TYPES[] = {"", "tx", "verack", "filterclear", "abcdefghijkl", "bad\x7f", "sp ace~", "hi\x01x"};
+static constexpr int cstrlen(const char* s) { int n = 0; while (s[n]) n++; return n; }
+template <int TYPEID, int PLEN, int CUT_LO, int CUT_HI, int TAMPER, long NEWLEN>
 static void h_v1_t()
 {
+    constexpr int TLEN = cstrlen(TYPES[TYPEID]);
     constexpr int WLEN = 24 + PLEN;
     uint8_t magic[4]; for (int i = 0; i < 4; i++) magic[i] = nondet_u8();
     CChainParams& cp = *reinterpret_cast<CChainParams*>(g_params_storage);
@@ -86,13 +104,15 @@ static void h_v1_t()
     // ---- sender
     char type[13]; uint8_t payload[5];
     bool type_valid = true;
-    for (int i = 0; i < TLEN; i++) { type[i] = (char)nondet_u8(); VASSUME(type[i] != 0); if (type[i] < 0x20 || type[i] > 0x7E) type_valid = false; }
+    for (int i = 0; i < TLEN; i++) { type[i] = TYPES[TYPEID][i]; if (type[i] < 0x20 || type[i] > 0x7E) type_valid = false; }
     type[TLEN] = 0;
     for (int i = 0; i < PLEN; i++) payload[i] = nondet_u8();
     V1Transport& s = *new V1Transport(0);
-    CSerializedNetMsg msg; msg.m_type.assign(type, TLEN); msg.data.assign(payload, payload + PLEN);
+    // (no std::string::assign(const char*): its aliasing test compares pointers into different objects, which symex cannot decide)
+    CSerializedNetMsg msg; msg.m_type.resize(TLEN); for (int i = 0; i < TLEN; i++) msg.m_type[i] = type[i];
+    msg.data.resize(PLEN); for (int i = 0; i < PLEN; i++) msg.data[i] = payload[i];
     VASSERT(s.SetMessageToSend(msg), "SetMessageToSend accepts a message when idle");
-    { CSerializedNetMsg second; second.m_type.assign("ping", 4); VASSERT(!s.SetMessageToSend(second), "no second message while one is being sent"); }
+    { CSerializedNetMsg second; second.m_type.resize(4, 'p'); VASSERT(!s.SetMessageToSend(second), "no second message while one is being sent"); }
     uint8_t wire[MAXW]; int wn = 0; int rounds = 0;
     while (true) {
         const auto& [bytes, more, mtype] = s.GetBytesToSend(false);
@@ -174,7 +194,7 @@ static void h_v1_t()
                 VASSERT(same_payload, "altered type byte: payload unchanged");
             }
         }
-        if constexpr (TAMPER < 0) { VWITNESS(res.delivered == 1, "delivered"); if constexpr (TLEN > 0) VWITNESS(res.rejected == 1, "invalid_type_rejected"); }
+        if constexpr (TAMPER < 0) { if (type_valid) VWITNESS(res.delivered == 1, "delivered"); else VWITNESS(res.rejected == 1, "invalid_type_rejected"); }
     }
     VASSERT(all_ok, "receiver yields exactly the type and payload that were sent");
     VREACH("end");
